@@ -1,7 +1,7 @@
 """C02 — the one-byte fast path is indistinguishable from the general path.
 Oracle: read_and_cut_text_as_bytes vs read_and_cut_str on the same Opt (in-process)."""
 from cases import evaluate, rand_field_case, run_corpus
-from common import case_line
+from common import case_line, build_tuc, build_tuc_nofast, run_cli
 from gen import bytes_upto
 
 LEVEL = "proof"
@@ -44,3 +44,20 @@ def run(chk):
         if a != b:
             chk.report_oracle("fast path and general path differ on the same options and input",
                               {"case": case_line(c), "case_b": l, "fast": a, "general": b})
+
+    if chk.tier == "thorough":
+        # the two BUILDS: default features vs --no-default-features --features regex (no fast lane at all), real binaries
+        from cases import rand_cli
+        a, b = build_tuc(release=False), build_tuc_nofast()
+        trip = []
+        while len(trip) < 20000:
+            argv, inp, c = rand_cli(rng)
+            if argv and not c.get("M") and not any(x in argv for x in ("-c", "-b", "-l")):
+                trip.append((argv, inp))
+        ra, rb = run_cli(a, trip), run_cli(b, trip)
+        for (argv, inp), x, y in zip(trip, ra, rb):
+            chk.evaluations += 1
+            chk.count("cli:two-builds")
+            if x != y:
+                chk.report_oracle("the default build and the build without the fast lane differ",
+                                  {"argv": argv, "stdin_hex": inp.hex(), "default_build": [x[0], x[1].hex()], "no_fast_lane_build": [y[0], y[1].hex()]})
